@@ -204,21 +204,17 @@ def install_fake_ck():
     sys.modules['confluent_kafka'] = m
 
 
-class _TimeShim:
-    """streamz.sources.time: sleep() is a stall of the loop thread"""
-    @staticmethod
-    def time():
-        return simloop.wall_time()
-
-    @staticmethod
-    def sleep(d):
-        lp = simloop.current()
-        if lp is not None:
-            lp.advance(d)
+class _KafkaClock(simloop._Clock):
+    """streamz.sources.time: sleep() is a stall of the loop thread (get_message_batch waits for a message)"""
+    def sleep(self, d):
+        simloop._Clock.sleep(self, d)
         ENV['rec'].rec('stall', 'get_message_batch', 0, d)
         ENV['stalls'] = ENV.get('stalls', 0) + 1
         if ENV['stalls'] > 200:
             raise RuntimeError('get_message_batch keeps waiting for a message that is not there')
+
+
+_TimeShim = _KafkaClock()
 
 
 class CrashNow(Exception):
@@ -236,7 +232,10 @@ def run_incarnation(sc, broker, inc, t0, crash_at, pending_msgs):
     import streamz.sources
     import streamz.core
     from streamz import Stream
+    saved_time = {k: getattr(streamz.sources, k) for k in ('time', 'sleep') if hasattr(streamz.sources, k)}
     streamz.sources.time = _TimeShim
+    if 'sleep' in saved_time:
+        streamz.sources.sleep = _TimeShim.sleep
     lp = simloop.new_loop(sc.get('tiebreak', 'fifo'), sc.get('tiebreak_seed', 0) + inc)
     lp._vt = t0
     lp.step_cap = 300_000
@@ -382,8 +381,8 @@ def run_incarnation(sc, broker, inc, t0, crash_at, pending_msgs):
         from .pipeline import _reset_streamz
         _reset_streamz()
         streamz.sources.RefCounter = base_ref
-        import time as _t
-        streamz.sources.time = _t
+        for k, v in saved_time.items():
+            setattr(streamz.sources, k, v)
     if state['status'] == 'crashed':
         # asynchronous commits still in flight die with the process (or land, if the scenario says so)
         if (sc.get('faults') or {}).get('inflight_lands'):
